@@ -34,6 +34,15 @@ var vfC14Pool = [][]byte{
 
 var vfC14Names = []string{"a", "b"}
 
+// vfC14AllNames: the names a write may mention. "c" is never written with data; it only ever appears
+// as a dangling stub (a stub entry for a name the parent revision does not have).
+var vfC14AllNames = []string{"a", "b", "c"}
+
+// vfC14SigLeak: an update that lists a stub entry which cannot be resolved against the parent and
+// carries no digest is accepted when the parent has other attachments; from then on the
+// obsolete-attachment sweep of that document is skipped (found by this check).
+const vfC14SigLeak = "unresolvable-stub-accepted-disables-obsolete-attachment-cleanup"
+
 // vfC14Digest is the advertised digest format of the property ("sha1-" + base64 of the SHA-1 of the
 // bytes), computed independently of the code under test.
 func vfC14Digest(b []byte) string {
@@ -55,7 +64,14 @@ type vfC14Rev struct {
 	noBody  bool // intermediate revision of a multi-revision push (never a leaf)
 	atts    map[string]vfC14Att
 	gone    bool // tombstoned leaf that the server pruned away (observed)
+	// dangling: names this revision lists that were never written with data on this branch (accepted
+	// dangling stubs). Nothing was written under them, so the property says nothing about them: the
+	// oracle ignores these names altogether.
+	dangling map[string]bool
 }
+
+// carries reports whether the revision was written with an _attachments object at all.
+func (r *vfC14Rev) carries() bool { return len(r.atts)+len(r.dangling) > 0 }
 
 type vfC14Doc struct {
 	id      string
@@ -63,6 +79,9 @@ type vfC14Doc struct {
 	order   []string
 	everRef map[string]bool // attachment data keys referenced by some committed revision
 	residue map[string]bool // data keys written by a failed write (never referenced by it)
+	// tainted: the document accepted a dangling stub without digest while vfC14SigLeak is a listed
+	// finding; the "cleaned up" direction is not asserted for it any more (the no-loss direction is).
+	tainted bool
 }
 
 func vfC14NewDoc(id string) *vfC14Doc {
@@ -77,6 +96,13 @@ func (d *vfC14Doc) clone() *vfC14Doc {
 		for k, v := range d.revs[id].atts {
 			r.atts[k] = v
 		}
+		r.dangling = nil
+		for k := range d.revs[id].dangling {
+			if r.dangling == nil {
+				r.dangling = map[string]bool{}
+			}
+			r.dangling[k] = true
+		}
 		c.revs[id] = &r
 	}
 	c.order = append([]string(nil), d.order...)
@@ -86,6 +112,7 @@ func (d *vfC14Doc) clone() *vfC14Doc {
 	for k := range d.residue {
 		c.residue[k] = true
 	}
+	c.tainted = d.tainted
 	return c
 }
 
@@ -181,8 +208,9 @@ func (d *vfC14Doc) add(r *vfC14Rev) {
 // writes
 
 const (
-	vfC14AttData = 1
-	vfC14AttStub = 2
+	vfC14AttData     = 1
+	vfC14AttStub     = 2
+	vfC14AttDangling = 3 // {"stub":true[,"digest":..][,"length":..][,"revpos":..]} for a name the parent lacks
 )
 
 type vfC14AttSpec struct {
@@ -190,6 +218,10 @@ type vfC14AttSpec struct {
 	content  int
 	asString bool // data travels as base64 text (JSON request) instead of raw bytes (multipart / BLIP)
 	ctype    bool // carries a content_type
+	// dangling stubs only
+	dDigest bool // carries the digest of contents[content] (content is meaningless otherwise)
+	dLength bool // carries that content's length too
+	dRevpos int  // 0 = no revpos field
 }
 
 type vfC14Write struct {
@@ -227,6 +259,20 @@ func (w *vfC14Write) render(contents [][]byte) string {
 		s := w.atts[k]
 		if s.kind == vfC14AttStub {
 			fmt.Fprintf(&sb, " %s=stub", k)
+		} else if s.kind == vfC14AttDangling {
+			fmt.Fprintf(&sb, " %s=dangling-stub(", k)
+			if s.dDigest {
+				fmt.Fprintf(&sb, "digest-of:%x", contents[s.content])
+				if s.dLength {
+					sb.WriteString(",length")
+				}
+			} else {
+				sb.WriteString("no-digest")
+			}
+			if s.dRevpos > 0 {
+				fmt.Fprintf(&sb, ",revpos=%d", s.dRevpos)
+			}
+			sb.WriteString(")")
 		} else {
 			enc := "raw"
 			if s.asString {
@@ -243,6 +289,25 @@ func (w *vfC14Write) render(contents [][]byte) string {
 func (w *vfC14Write) hasStub() bool {
 	for _, s := range w.atts {
 		if s.kind == vfC14AttStub {
+			return true
+		}
+	}
+	return false
+}
+
+// danglingNoDigest reports whether the write lists a dangling stub without a digest.
+func (w *vfC14Write) danglingNoDigest() bool {
+	for _, s := range w.atts {
+		if s.kind == vfC14AttDangling && !s.dDigest {
+			return true
+		}
+	}
+	return false
+}
+
+func (w *vfC14Write) hasDangling() bool {
+	for _, s := range w.atts {
+		if s.kind == vfC14AttDangling {
 			return true
 		}
 	}
@@ -301,16 +366,26 @@ func (d *vfC14Doc) apply(w *vfC14Write, newRev string) (*vfC14Rev, error) {
 	if gen != pgen+1+w.skip {
 		return nil, fmt.Errorf("revision %s is not generation %d+1+%d", newRev, pgen, w.skip)
 	}
-	// intermediate revisions of a multi-revision push
+	// intermediate revisions of a multi-revision push. One that the document already has (another client
+	// pushed that very revision in the meantime) is not new: the pushed history then just continues it.
 	at := parent
+	reused := false
 	for i := 1; i <= w.skip; i++ {
 		id := fmt.Sprintf("%d-%si%d", pgen+i, w.suffix, i)
+		if ex := d.revs[id]; ex != nil {
+			if ex.parent != at {
+				return nil, fmt.Errorf("intermediate revision %s exists with parent %q, the pushed history says %q", id, ex.parent, at)
+			}
+			at = id
+			reused = true
+			continue
+		}
 		g, s, _ := vfC14ParseRev(id)
 		d.add(&vfC14Rev{id: id, parent: at, gen: g, suffix: s, noBody: true})
 		at = id
 	}
 	r := &vfC14Rev{id: newRev, parent: at, gen: gen, suffix: suffix, deleted: w.deleted, atts: map[string]vfC14Att{}}
-	for _, name := range vfC14Names {
+	for _, name := range vfC14AllNames {
 		s, ok := w.atts[name]
 		if !ok {
 			continue
@@ -318,7 +393,15 @@ func (d *vfC14Doc) apply(w *vfC14Write, newRev string) (*vfC14Rev, error) {
 		switch s.kind {
 		case vfC14AttData:
 			r.atts[name] = vfC14Att{content: s.content, revpos: gen}
+		case vfC14AttDangling:
+			if r.dangling == nil {
+				r.dangling = map[string]bool{}
+			}
+			r.dangling[name] = true
 		case vfC14AttStub:
+			if reused {
+				return nil, fmt.Errorf("stub %q on a push whose intermediate revision was written by someone else", name)
+			}
 			if p == nil {
 				return nil, fmt.Errorf("stub %q without a parent", name)
 			}
